@@ -2,21 +2,21 @@
 # replay for failed obligation 'BaseBosonicState.quad_expectation/bosonic_quad/variance-is-second-moment-minus-squared-mean' (property C16)
 # case: ''; solver: z3
 # verifier output (counter-model):
-#   choice_mode = 1
+#   choice_mode = 2
 #   choice_shape = 1
-#   cs_c = 103/128
-#   cs_s = -0.5936985997?
-#   m0_2 = 1
-#   m0_3 = 2
-#   m1_2 = 0
-#   m1_3 = 1
-#   m2_2 = 0
-#   m2_3 = 0
+#   cs_c = 0.8660254037?
+#   cs_s = -1/2
+#   m0_4 = 1
+#   m0_5 = 1
+#   m1_4 = -1
+#   m1_5 = 1
+#   m2_4 = 1
+#   m2_5 = 1
 #   phi = 1
-#   w0 = -1
-#   w1 = 2
-#   w2 = 0
-I = {'w0': 0.9998779296875, 'w1': -0.25, 'w2': 0.2501220703125, 'm0_0': 0.0, 'm0_1': 0.0, 'm0_2': 0.8125, 'm0_3': 0.25, 'm0_4': 0.0, 'm0_5': 0.0, 'm1_0': 0.0, 'm1_1': 0.0, 'm1_2': -12264.0, 'm1_3': -1.0, 'm1_4': 0.0, 'm1_5': 0.0, 'm2_0': 0.0, 'm2_1': 0.0, 'm2_2': -12261.0, 'm2_3': -0.9730224609375, 'm2_4': 0.0, 'm2_5': 0.0, 'c0_0_0': 0.0, 'c0_0_1': 0.0, 'c0_0_2': 0.0, 'c0_0_3': 0.0, 'c0_0_4': 0.0, 'c0_0_5': 0.0, 'c0_1_0': 0.0, 'c0_1_1': 0.0, 'c0_1_2': 0.0, 'c0_1_3': 0.0, 'c0_1_4': 0.0, 'c0_1_5': 0.0, 'c0_2_0': 0.0, 'c0_2_1': 0.0, 'c0_2_2': 0.0, 'c0_2_3': 0.0, 'c0_2_4': 0.0, 'c0_2_5': 0.0, 'c0_3_0': 0.0, 'c0_3_1': 0.0, 'c0_3_2': 0.0, 'c0_3_3': 0.0, 'c0_3_4': 0.0, 'c0_3_5': 0.0, 'c0_4_0': 0.0, 'c0_4_1': 0.0, 'c0_4_2': 0.0, 'c0_4_3': 0.0, 'c0_4_4': 0.0, 'c0_4_5': 0.0, 'c0_5_0': 0.0, 'c0_5_1': 0.0, 'c0_5_2': 0.0, 'c0_5_3': 0.0, 'c0_5_4': 0.0, 'c0_5_5': 0.0, 'c1_0_0': 0.0, 'c1_0_1': 0.0, 'c1_0_2': 0.0, 'c1_0_3': 0.0, 'c1_0_4': 0.0, 'c1_0_5': 0.0, 'c1_1_0': 0.0, 'c1_1_1': 0.0, 'c1_1_2': 0.0, 'c1_1_3': 0.0, 'c1_1_4': 0.0, 'c1_1_5': 0.0, 'c1_2_0': 0.0, 'c1_2_1': 0.0, 'c1_2_2': 0.0, 'c1_2_3': 0.0, 'c1_2_4': 0.0, 'c1_2_5': 0.0, 'c1_3_0': 0.0, 'c1_3_1': 0.0, 'c1_3_2': 0.0, 'c1_3_3': 0.0, 'c1_3_4': 0.0, 'c1_3_5': 0.0, 'c1_4_0': 0.0, 'c1_4_1': 0.0, 'c1_4_2': 0.0, 'c1_4_3': 0.0, 'c1_4_4': 0.0, 'c1_4_5': 0.0, 'c1_5_0': 0.0, 'c1_5_1': 0.0, 'c1_5_2': 0.0, 'c1_5_3': 0.0, 'c1_5_4': 0.0, 'c1_5_5': 0.0, 'c2_0_0': 0.0, 'c2_0_1': 0.0, 'c2_0_2': 0.0, 'c2_0_3': 0.0, 'c2_0_4': 0.0, 'c2_0_5': 0.0, 'c2_1_0': 0.0, 'c2_1_1': 0.0, 'c2_1_2': 0.0, 'c2_1_3': 0.0, 'c2_1_4': 0.0, 'c2_1_5': 0.0, 'c2_2_0': 0.0, 'c2_2_1': 0.0, 'c2_2_2': 0.0, 'c2_2_3': 0.0, 'c2_2_4': 0.0, 'c2_2_5': 0.0, 'c2_3_0': 0.0, 'c2_3_1': 0.0, 'c2_3_2': 0.0, 'c2_3_3': 0.0, 'c2_3_4': 0.0, 'c2_3_5': 0.0, 'c2_4_0': 0.0, 'c2_4_1': 0.0, 'c2_4_2': 0.0, 'c2_4_3': 0.0, 'c2_4_4': 0.0, 'c2_4_5': 0.0, 'c2_5_0': 0.0, 'c2_5_1': 0.0, 'c2_5_2': 0.0, 'c2_5_3': 0.0, 'c2_5_4': 0.0, 'c2_5_5': 0.0, 'K': 3, 'M': 3, 'mode': 1, 'phi': 1.0}
+#   w0 = 1
+#   w1 = -1
+#   w2 = 1
+I = {'w0': -0.140625, 'w1': 1.140625, 'm0_0': 0.0, 'm0_1': 0.0, 'm0_2': -2.984375, 'm0_3': -0.000244140625, 'm1_0': 0.0, 'm1_1': 0.0, 'm1_2': 0.4990234375, 'm1_3': 0.50048828125, 'c0_0_0': 0.0, 'c0_0_1': 0.0, 'c0_0_2': 0.0, 'c0_0_3': 0.0, 'c0_1_0': 0.0, 'c0_1_1': 0.0, 'c0_1_2': 0.0, 'c0_1_3': 0.0, 'c0_2_0': 0.0, 'c0_2_1': 0.0, 'c0_2_2': 0.0, 'c0_2_3': 0.0, 'c0_3_0': 0.0, 'c0_3_1': 0.0, 'c0_3_2': 0.0, 'c0_3_3': 0.0, 'c1_0_0': 0.0, 'c1_0_1': 0.0, 'c1_0_2': 0.0, 'c1_0_3': 0.0, 'c1_1_0': 0.0, 'c1_1_1': 0.0, 'c1_1_2': 0.0, 'c1_1_3': 0.0, 'c1_2_0': 0.0, 'c1_2_1': 0.0, 'c1_2_2': 0.0, 'c1_2_3': 0.0, 'c1_3_0': 0.0, 'c1_3_1': 0.0, 'c1_3_2': 0.0, 'c1_3_3': 0.0, 'K': 2, 'M': 2, 'mode': 1, 'phi': 1.0}
 OBLIGATION = 'BaseBosonicState.quad_expectation/bosonic_quad/variance-is-second-moment-minus-squared-mean'
 
 import sys
